@@ -44,7 +44,8 @@ def plan(tier, seed):
             if abs(RL.det3(S)) * nat > 32:
                 continue
             g = []
-            for born, layout, method, f in itertools.product(("isotropic", "random", "zero"), ("full", "compact"), ("wang", "gonze"), factors):
+            # born varies fastest: consecutive cases re-set nac_params with the same method on the same object (a history)
+            for layout, method, f, born in itertools.product(("full", "compact"), ("wang", "gonze"), factors, ("isotropic", "random", "zero")):
                 if tier == "quick" and f != factors[0] and (born != "random" or layout != "full"):
                     continue
                 g.append({"xtal": name, "S": S, "born": born, "layout": layout, "method": method, "factor": f})
@@ -83,8 +84,10 @@ def run_case(case, seed, st):
     if "ph" not in st:
         c = phx.xtal(case["xtal"])
         st["ph"] = phx.make_phonopy(c, case["S"], None)
+        st["ph0"] = phx.make_phonopy(c, case["S"], None)  # never carries NAC parameters: reference D_noNAC
         st["fc"] = phx.supercell_fc(st["ph"], phx.model_for(st["ph"], "nn", seed))
     ph = st["ph"]
+    ph0 = st["ph0"]
     p2s = np.asarray(ph.primitive.p2s_map)
     fc = np.array(st["fc"] if case["layout"] == "full" else st["fc"][p2s], dtype="double", order="C")
     trans = 0
@@ -94,8 +97,11 @@ def run_case(case, seed, st):
                     msg="%s S=%s factor=%g %s: %s" % (case["xtal"], case["S"], case["factor"], tag, msg))
 
     try:
-        ph.nac_params = None
-        ph.force_constants = fc.copy()
+        ph0.force_constants = fc.copy()
+        if st.get("layout") != case["layout"]:
+            ph.nac_params = None
+            ph.force_constants = fc.copy()
+            st["layout"] = case["layout"]
         Lp = np.asarray(ph.primitive.cell)
         Sp = np.rint(np.asarray(ph.supercell.cell) @ np.linalg.inv(Lp)).astype(int).T
         comm = Q.commensurate(Sp)
@@ -109,8 +115,8 @@ def run_case(case, seed, st):
             reps.append([cand[i] for i in np.where(ln < ln.min() * (1 + 1e-5) + 1e-9)[0]])  # same tie window as phonopy's zone search
         shifted = [qc + np.array([1.0, 0, -1.0]) for qc in comm[1:]]
         allq = [np.zeros(3)] + [r for rr in reps for r in rr] + shifted + gen
-        ph.run_qpoints(allq, with_dynamical_matrices=True)
-        D0 = np.array(ph.get_qpoints_dict()["dynamical_matrices"])
+        ph0.run_qpoints(allq, with_dynamical_matrices=True)
+        D0 = np.array(ph0.get_qpoints_dict()["dynamical_matrices"])
         trans += len(allq)
         nac = make_nac(ph, case["born"], case["method"], case["factor"], seed)
         ph.nac_params = nac
